@@ -83,6 +83,7 @@ P_EXOTIC = 0.1
 P_FALSY = 0.12
 P_FACTORY = 0.15
 P_GROUPING = 0.1
+P_LATE_HOOKS = 0.3
 
 
 def exoticise(rng, specs, p=None):
@@ -144,6 +145,12 @@ def random_layer_graph(rng, nmax=6, nmin=1, p_edge=0.4, p_inst=0.35,
         specs.append({'name': names[i], 'kind': kind,
                       'bases': [specs[b]['name'] for b in bases],
                       'hooks': hooks})
+        if 'setUp' in hooks and 'tearDown' in hooks and \
+                ('testSetUp' in hooks or 'testTearDown' in hooks) and \
+                rng.random() < P_LATE_HOOKS:
+            # its per-test hooks appear when the layer is set up and go
+            # away when it is torn down
+            specs[-1]['late_hooks'] = True
         if kind == 'inst' and rng.random() < P_FALSY:
             # a layer object that is false (an empty container)
             specs[-1]['falsy'] = True
